@@ -11,6 +11,7 @@ static struct { const char *name; int (*fn)(FILE *, FILE *); } cmds[] = {
     {"readenum", cmd_readenum},
     {"scan", cmd_scan},
     {"ranges", cmd_ranges},
+    {"copy", cmd_copy},
     {NULL, NULL}
 };
 
